@@ -142,13 +142,20 @@ def gen_env_plan(rng: Rng, tier: str) -> Dict[str, Any]:
 HUGE_VOCAB = {"ranks": 2, "name_explosion": 17000, "vocab": "disjoint", "steps": 2, "fractional": False,
               "tiny_events": False, "order": "grouped", "meta_noise": False, "flow_p": 0.0, "boundary": False,
               "base_ts": 1000, "clone_ranks": False, "no_rank_meta": False}
+# four ranks whose own symbol counts are 2**15 - 1 .. 2**15 + 2 (or sit around 2**16): the widths at which a
+# narrow id type wraps, per rank and - the vocabularies being disjoint - in the merged table as well
+HUGE_VOCAB_EXACT = dict(HUGE_VOCAB, name_explosion=0, symbol_family="int16", symbol_target=0)
 
 
 def gen_plan(rng: Rng, tier: str, kind: str, hugevocab: bool = False) -> Dict[str, Any]:
     if kind == "history":
         return gen_history_plan(rng, tier)
     if kind == "decode":
-        plan = loader.gen_plan(rng, tier, faulty=False, profile="symtab", overrides=HUGE_VOCAB if hugevocab else None)
+        ov = None
+        if hugevocab:
+            pick = rng.fork("hugevocab").weighted([("exact16", 3), ("exact-u16", 1), ("bulk", 1)]) if tier == "thorough" else "exact16"
+            ov = dict(HUGE_VOCAB) if pick == "bulk" else dict(HUGE_VOCAB_EXACT, symbol_family="int16" if pick == "exact16" else "uint16")
+        plan = loader.gen_plan(rng, tier, faulty=False, profile="symtab", overrides=ov)
         plan["profile"] = NAME
         plan["kind"] = "decode"
         return plan
